@@ -416,7 +416,7 @@ func init() {
 			return c12EngUnit(unit, env)
 		},
 		Replay: func(v *fw.Violation) string { b, _ := json.Marshal(v.Witness); return "re-run: kvcheck one C12 quick " + v.Unit + "\nwitness: " + string(b) },
-		BudgetQuick: 110, BudgetThorough: 900,
+		BudgetQuick: 150, BudgetThorough: 900,
 	})
 }
 
